@@ -200,9 +200,10 @@ def handlePolyFft : Handler
   | ["pf_mul_basic", n, p, q] => do
     let n ← parseNat n; let p ← parsePoly n p; let q ← parsePoly n q
     some (showOptList (Ymq.PolyMul.basicMul (Ymq.PolyMul.natOps n) (List.replicate (2 * p.size) 0) p.toList q.toList))
-  | ["pf_mul_fft", n, _ringsize, p, q] => do
-    let n ← parseNat n; let p ← parsePoly n p; let q ← parsePoly n q
-    some (showArr (mul n p q))
+  | ["pf_mul_fft", n, ringsize, p, q] => do
+    -- mechanism model (Ymq/Model/PolySeries.lean, `mulFft`); its NTT step is refined by the word-level model
+    let n ← parseNat n; let ringsize ← parseNat ringsize; let p ← parsePoly n p; let q ← parsePoly n q
+    some (showOptList (Ymq.PolyMul.mulFft (Ymq.PolyMul.Ctx.new ringsize) (Ymq.PolyMul.natOps n) p.toList q.toList))
   | ["pf_longmul", n, ringsize, p, q] => do
     let n ← parseNat n; let ringsize ← parseNat ringsize; let p ← parsePoly n p; let q ← parsePoly n q
     some (showOptList (Ymq.PolyMul.longmul (Ymq.PolyMul.Ctx.new ringsize) (Ymq.PolyMul.natOps n)
